@@ -111,6 +111,21 @@ func (r *histRun) msrun(op M) (out interface{}) {
 	}
 	rec := &recSource{inner: mj.src, main: map[int]bool{}}
 	sink := &jobs.VerifSink{}
+	if during := getm(op, "during"); during != nil {
+		// forced schedule: a write (to a dependency dataset) lands between two pages of this run, right after the sink has
+		// accepted its n-th batch
+		n, after := 0, geti(during, "after")
+		inner := during["inner"].(map[string]interface{})
+		op["duringRan"] = false
+		sink.OnAccepted = func() {
+			n++
+			if n == after {
+				r.mutate(-1, inner)
+				op["duringRan"] = true
+				r.c.Count("c18:write-between-pages", 1)
+			}
+		}
+	}
 	failAt, hasFault := -1, false
 	if v, ok := op["failAt"]; ok {
 		failAt, hasFault = geti(op, "failAt"), true
@@ -336,6 +351,13 @@ func withMsRuns(c *Ctx, g *storeGen, ops []M) []M {
 			f := run(j4, false)
 			f["failAt"] = c.Rng.Intn(n)
 			out = append(out, f, run(j4, false), run(j4, false))
+		}
+		if c.Rng.Intn(2) == 0 {
+			// a full sync with a write to the dependency dataset between two of its pages: the dependency's token is the
+			// watermark taken when the full sync started, so the next incremental run re-emits what the change affects
+			fs := run(j4, true)
+			fs["during"] = M{"after": 1 + c.Rng.Intn(2), "inner": M{"op": "store", "ds": "b", "ents": []M{{"id": "ns3:hub", "deleted": false, "props": M{"ns3:p0": 77 + c.Rng.Intn(10)}, "refs": M{}}}}}
+			out = append(out, fs, run(j4, false), run(j4, false))
 		}
 	}
 	return out
